@@ -36,6 +36,12 @@ def hostile_lines(rng, store, n):
             f = rng.choice(["SCENENAME", "INPNAME", "BASIC", "METAINFO", "RDSINFO", "DIRMODE", "STRAIGHT", "PWR", "AVAIL", "NOPE", "INPNAMEHDMI1", "SCENE1NAME", "PLAYBACK", "PLAYBACKINFO", "MEM", "REMOTECODE"])
             v = rng.choice(["?", "?", "?", "On", "Play", "Stop", "Pause", "Skip Fwd", "Standby", "1", "", "7F0158A7", "1234"])
             out.append(f"@{s}:{f}={v}".encode())
+        elif r < 0.55:
+            # the same multi-value query repeated with the direct modes switched in between (what two start-ups of a
+            # client with an assignment in between produce)
+            z = rng.choice(["MAIN", "ZONE2", "ZONE3", "ZONE4"])
+            f = rng.choice(["DIRMODE", "PUREDIRMODE", "STRAIGHT"])
+            out += [f"@{z}:BASIC=?".encode(), f"@{z}:{f}=On".encode(), f"@{z}:BASIC=?".encode(), f"@{z}:BASIC=?".encode(), f"@{z}:{f}=Off".encode(), f"@{z}:BASIC=?".encode()]
         elif r < 0.6:
             z = rng.choice(["MAIN", "ZONE2", "ZONE3", "ZONE4"])
             inp = rng.choice(["HDMI1", "AV1", "TUNER", "NET RADIO", "Spotify", "USB", "AUDIO1", "Bluetooth", "SERVER", "nonsense", ""])
